@@ -1,4 +1,387 @@
-//! C05 — stub, not built yet.
+//! C05 — number <-> bits codecs are exact inverses and independent of alignment.
+//!
+//! Correspondence (see lean/XehModel/Driver/C05.lean):
+//!   `C05 api <w> <order> <val> p<pre> p<post>`       from_int → embed at |pre| → to_uint / to_int
+//!   `C05 f32|f64 <order> <bits> p<pre> p<post>`      from_fNN → embed → to_fNN           (bit-exact, API level)
+//!   `C05 word <cell> p<pre> p<post> | pack | read`   the language words through `eval`
+//!
+//! Oracle (implementation only): round trip (mod 2^w, two's complement), Rust's own
+//! `to_le_bytes/to_be_bytes/from_le_bytes/from_be_bytes` for byte-multiple widths, and offset independence
+//! (the same field decoded at all 8 bit offsets of a larger buffer with random / all-ones surroundings).
+//! Through the words `f32!`/`f32` the conversions `f64 as f32` / `f32 as f64` may quiet a signalling NaN:
+//! NaNs are compared as a class on that path only; `Bitstr::from_f32/to_f32/from_f64/to_f64` are bit-exact.
+use super::c04::{impl_bits, pack_hex, ref_be};
+use crate::canon;
 use crate::Ctx;
+use xeh::bitstr::*;
+use xeh::prelude::*;
 
-pub fn run(_ctx: &mut Ctx) {}
+fn ord(big: bool) -> Byteorder {
+    if big { BIG } else { LITTLE }
+}
+fn oname(big: bool) -> &'static str {
+    if big { "be" } else { "le" }
+}
+fn pbits(b: &[bool]) -> String {
+    format!("p{}", b.iter().map(|x| if *x { '1' } else { '0' }).collect::<String>())
+}
+
+/// surroundings for a field of `w` bits at bit offset `off`: random or all-ones, total length byte multiple
+fn surround(ctx: &mut Ctx, off: usize, w: usize) -> (Vec<bool>, Vec<bool>) {
+    let ones = ctx.rng.chance(30);
+    let extra = 8 * ctx.rng.below(3);
+    let pre: Vec<bool> = (0..off + extra).map(|_| ones || ctx.rng.bool()).collect();
+    let mut post: Vec<bool> = (0..ctx.rng.below(12)).map(|_| ones || ctx.rng.bool()).collect();
+    while (pre.len() + w + post.len()) % 8 != 0 {
+        post.push(true);
+    }
+    (pre, post)
+}
+
+/// the field `bits` embedded after `pre`, addressed as a sub-range of a larger buffer
+fn embed(pre: &[bool], bits: &[bool], post: &[bool]) -> Bitstr {
+    let mut all = pre.to_vec();
+    all.extend_from_slice(bits);
+    all.extend_from_slice(post);
+    assert!(all.len() % 8 == 0);
+    let bytes: Vec<u8> = all.chunks(8).map(|c| ref_be(c) as u8).collect();
+    Bitstr::from(bytes).substr(pre.len(), pre.len() + bits.len()).unwrap()
+}
+
+fn mask(w: usize) -> u128 {
+    if w >= 128 { u128::MAX } else { (1u128 << w) - 1 }
+}
+
+fn sext(u: u128, w: usize) -> i128 {
+    if w == 0 {
+        0
+    } else if w >= 128 {
+        u as i128
+    } else {
+        ((u << (128 - w)) as i128) >> (128 - w)
+    }
+}
+
+fn values(ctx: &mut Ctx, w: usize, nrand: usize, all_single_bits: bool) -> Vec<i128> {
+    let mut v: Vec<i128> = vec![0, 1, -1];
+    if w >= 1 && w <= 128 {
+        let m = mask(w);
+        v.push(m as i128); // 2^w - 1 (as i128 bit pattern)
+        v.push((m >> 1) as i128); // max signed
+        v.push(!((m >> 1) as i128)); // min signed
+        v.push(((m >> 1) as i128).wrapping_add(1)); // 2^(w-1)
+    }
+    if all_single_bits {
+        for k in 0..128 {
+            v.push((1u128 << k) as i128);
+        }
+    } else {
+        for _ in 0..2 {
+            v.push((1u128 << ctx.rng.below(w.clamp(1, 128))) as i128);
+        }
+        v.push((1u128 << ctx.rng.below(128)) as i128);
+    }
+    for _ in 0..nrand {
+        v.push(super::gen::gen_int(&mut ctx.rng));
+    }
+    v.push(ctx.rng.next_u128() as i128);
+    v
+}
+
+/// one (width, order, value): oracle over all 8 offsets + correspondence line(s)
+fn api_case(ctx: &mut Ctx, w: usize, big: bool, val: i128, offsets: &[usize]) {
+    let o = ord(big);
+    let desc = |what: &str| format!("C05 api w={} {} val={} {}", w, oname(big), val, what);
+    let f = match crate::guarded(|| Bitstr::from_int(val, w, o)) {
+        Some(f) => f,
+        None => return ctx.oracle_fail(desc("from_int"), "no panic".into(), "panic".into()),
+    };
+    let fbits = impl_bits(&f);
+    ctx.check(f.len() == w && fbits.len() == w, || desc("len"), || w.to_string(), || f.len().to_string());
+    let in_scope = (1..=128).contains(&w);
+    let want_u = (val as u128) & mask(w);
+    let want_i = sext(want_u, w);
+    if in_scope {
+        ctx.tag("oracle:roundtrip");
+        let u = f.to_uint(o);
+        let i = f.to_int(o);
+        ctx.check(u == want_u, || desc("to_uint(from_int)"), || want_u.to_string(), || u.to_string());
+        ctx.check(i == want_i, || desc("to_int(from_int)"), || want_i.to_string(), || i.to_string());
+        if w % 8 == 0 {
+            ctx.tag("oracle:std-byte-layout");
+            let k = w / 8;
+            let std: Vec<u8> = if big { val.to_be_bytes()[16 - k..].to_vec() } else { val.to_le_bytes()[..k].to_vec() };
+            let got = f.to_bytes();
+            ctx.check(got.as_ref() == Some(&std), || desc("byte layout"), || canon::hex(&std), || format!("{:?}", got.as_ref().map(|b| canon::hex(b))));
+            // decoding the platform's layout
+            let mut full = [if want_i < 0 { 0xffu8 } else { 0 }; 16];
+            if big { full[16 - k..].copy_from_slice(&std) } else { full[..k].copy_from_slice(&std) }
+            let std_i = if big { i128::from_be_bytes(full) } else { i128::from_le_bytes(full) };
+            let d = Bitstr::from(std.clone());
+            ctx.check(d.to_int(o) == std_i && d.to_uint(o) == want_u, || desc("decode std bytes"), || format!("{} {}", want_u, std_i), || format!("{} {}", d.to_uint(o), d.to_int(o)));
+        }
+    }
+    // offset independence: decode the same bits at every offset
+    let base_u = f.to_uint(o);
+    let base_i = f.to_int(o);
+    for off in 0..8 {
+        let (pre, post) = surround(ctx, off, w);
+        let e = embed(&pre, &fbits, &post);
+        let r = crate::guarded(|| (e.to_uint(o), e.to_int(o), e.to_uint(ord(!big)), f.to_uint(ord(!big))));
+        match r {
+            None => ctx.oracle_fail(desc(&format!("decode at offset {}", off)), "no panic".into(), "panic".into()),
+            Some((u, i, ux, fx)) => {
+                ctx.tag("oracle:offset-independence");
+                ctx.check(u == base_u && i == base_i && ux == fx, || desc(&format!("decode at offset {} pre={} post={}", off, pbits(&pre), pbits(&post))), || format!("{} {} {}", base_u, base_i, fx), || format!("{} {} {}", u, i, ux));
+                if offsets.contains(&off) {
+                    ctx.tag(&format!("api:offset={}", off));
+                    ctx.case(
+                        format!("C05 api {} {} {} {} {}", w, oname(big), val, pbits(&pre), pbits(&post)),
+                        format!("f{}:{} u{} i{}", pack_hex(&fbits), f.len(), u, i),
+                    );
+                }
+            }
+        }
+    }
+}
+
+fn float_bits32(ctx: &mut Ctx) -> u32 {
+    match ctx.rng.below(10) {
+        0 => *ctx.rng.pick(&[0u32, 0x8000_0000, 0x3f80_0000, 0x7f80_0000, 0xff80_0000, 0x7fc0_0000, 0x7f80_0001, 0xffc0_1234, 1, 0x007f_ffff, 0x0080_0000, 0x7f7f_ffff]),
+        1 => 0x7f80_0001 | (ctx.rng.next_u64() as u32 & 0x803f_ffff), // signalling NaN payloads
+        2 => 0x7fc0_0000 | (ctx.rng.next_u64() as u32 & 0x803f_ffff), // quiet NaN payloads
+        3 => ctx.rng.next_u64() as u32 & 0x807f_ffff,                 // subnormals
+        _ => ctx.rng.next_u64() as u32,
+    }
+}
+
+fn float_bits64(ctx: &mut Ctx) -> u64 {
+    match ctx.rng.below(10) {
+        0 => *ctx.rng.pick(&[0u64, 1 << 63, 0x3ff0_0000_0000_0000, 0x7ff0_0000_0000_0000, 0xfff0_0000_0000_0000, 0x7ff8_0000_0000_0000, 0x7ff0_0000_0000_0001, 1, 0x000f_ffff_ffff_ffff, 0x0010_0000_0000_0000, 0x7fef_ffff_ffff_ffff]),
+        1 => 0x7ff0_0000_0000_0001 | (ctx.rng.next_u64() & 0x8007_ffff_ffff_ffff),
+        2 => 0x7ff8_0000_0000_0000 | (ctx.rng.next_u64() & 0x8007_ffff_ffff_ffff),
+        3 => ctx.rng.next_u64() & 0x800f_ffff_ffff_ffff,
+        _ => ctx.rng.next_u64(),
+    }
+}
+
+fn fclass(exp_all_ones: bool, exp_zero: bool, frac_zero: bool, quiet: bool) -> &'static str {
+    if exp_all_ones {
+        if frac_zero { "inf" } else if quiet { "qnan" } else { "snan" }
+    } else if exp_zero {
+        if frac_zero { "zero" } else { "subnormal" }
+    } else {
+        "normal"
+    }
+}
+
+fn float_api_case(ctx: &mut Ctx, is64: bool, big: bool, x: u64) {
+    let o = ord(big);
+    let (w, name) = if is64 { (64, "f64") } else { (32, "f32") };
+    let class = if is64 {
+        fclass((x >> 52) & 0x7ff == 0x7ff, (x >> 52) & 0x7ff == 0, x & ((1 << 52) - 1) == 0, (x >> 51) & 1 == 1)
+    } else {
+        fclass((x >> 23) & 0xff == 0xff, (x >> 23) & 0xff == 0, x & ((1 << 23) - 1) == 0, (x >> 22) & 1 == 1)
+    };
+    ctx.tag(&format!("{}:class:{}", name, class));
+    let desc = |what: &str| format!("C05 {} {} {:x} {}", name, oname(big), x, what);
+    let f = if is64 { Bitstr::from_f64(f64::from_bits(x), o) } else { Bitstr::from_f32(f32::from_bits(x as u32), o) };
+    let std: Vec<u8> = match (is64, big) {
+        (true, true) => x.to_be_bytes().to_vec(),
+        (true, false) => x.to_le_bytes().to_vec(),
+        (false, true) => (x as u32).to_be_bytes().to_vec(),
+        (false, false) => (x as u32).to_le_bytes().to_vec(),
+    };
+    let got = f.to_bytes();
+    ctx.check(got.as_ref() == Some(&std), || desc("byte layout"), || canon::hex(&std), || format!("{:?}", got.as_ref().map(|b| canon::hex(b))));
+    let fbits = impl_bits(&f);
+    let line_off = ctx.rng.below(8);
+    for off in 0..8 {
+        let (pre, post) = surround(ctx, off, w);
+        let e = embed(&pre, &fbits, &post);
+        let back: u64 = if is64 { e.to_f64(o).to_bits() } else { e.to_f32(o).to_bits() as u64 };
+        ctx.check(back == x, || desc(&format!("round trip at offset {}", off)), || format!("{:x}", x), || format!("{:x}", back));
+        if off == line_off {
+            let (xs, bs) = if is64 { (format!("{:016x}", x), format!("{:016x}", back)) } else { (format!("{:08x}", x), format!("{:08x}", back)) };
+            ctx.case(format!("C05 {} {} {} {} {}", name, oname(big), xs, pbits(&pre), pbits(&post)), format!("f{}:{} r{}", pack_hex(&fbits), f.len(), bs));
+        }
+    }
+}
+
+fn show_real(r: f64) -> String {
+    if r.is_nan() { "rNaN".into() } else { format!("r{:016x}", r.to_bits()) }
+}
+
+/// the language words through `eval`
+fn word_case(ctx: &mut Ctx, base: &Xstate, val: Cell, pack: &str, read: &str, off: usize, expect: Option<String>) {
+    let mut xs = base.clone();
+    let packed = crate::guarded(|| {
+        xs.push_data(val.clone()).unwrap();
+        xs.eval(pack).map(|_| xs.pop_data())
+    });
+    let vtxt = match &val {
+        Cell::Real(r) => format!("r{:016x}", r.to_bits()),
+        c => canon::cell(c),
+    };
+    let nan_in = matches!(&val, Cell::Real(r) if r.is_nan());
+    // pre/post are needed for the request line even when packing fails
+    let field: Result<Bitstr, String> = match packed {
+        None => Err("panic".into()),
+        Some(Err(e)) => Err(format!("err {}", canon::err(&e))),
+        Some(Ok(Err(e))) => Err(format!("err {}", canon::err(&e))),
+        Some(Ok(Ok(c))) => match c.value() {
+            Cell::Bitstr(b) => Ok(b.clone()),
+            other => Err(format!("not-a-bitstr {}", canon::cell(other))),
+        },
+    };
+    let w = field.as_ref().map(|f| f.len()).unwrap_or(0);
+    let (pre, post) = surround(ctx, off, w);
+    let req = format!("C05 word {} {} {} | {} | {}", vtxt, pbits(&pre), pbits(&post), pack, read);
+    let f = match field {
+        Err(e) => {
+            ctx.tag("word:pack-error");
+            ctx.case(req, e);
+            return;
+        }
+        Ok(f) => f,
+    };
+    let fbits = impl_bits(&f);
+    let e = embed(&pre, &fbits, &post);
+    let mut xs = base.clone();
+    let r = crate::guarded(|| {
+        xs.push_data(Cell::from(e.clone())).unwrap();
+        xs.eval(&format!("open-bitstr {}", read)).map(|_| xs.pop_data())
+    });
+    let out = match r {
+        None => "panic".to_string(),
+        Some(Err(e)) => format!("err {}", canon::err(&e)),
+        Some(Ok(Err(e))) => format!("err {}", canon::err(&e)),
+        Some(Ok(Ok(c))) => {
+            // the `len` tag records the width that was read
+            let len_tag = c.get_tag(&Cell::from("len")).cloned();
+            ctx.check(len_tag == Some(Cell::from(w)), || format!("{} [len tag]", req), || format!("{}", w), || format!("{:?}", len_tag.as_ref().map(canon::cell)));
+            match c.value() {
+                Cell::Real(r) => format!("ok {}", show_real(*r)),
+                v => format!("ok {}", canon::cell(v)),
+            }
+        }
+    };
+    if out == "panic" {
+        ctx.oracle_fail(req.clone(), "no panic".into(), "panic".into());
+    }
+    if let Some(exp) = expect {
+        ctx.check(out == exp, || req.clone(), || exp.clone(), || out.clone());
+    }
+    let ftxt = if nan_in { "fNaN".to_string() } else { format!("f{}:{}", pack_hex(&fbits), f.len()) };
+    ctx.case(req, format!("{} {}", ftxt, out));
+}
+
+fn int_word_cases(ctx: &mut Ctx, base: &Xstate, w: usize, big: bool, signed: bool, val: i128) {
+    let off = ctx.rng.below(8);
+    let fixed = matches!(w, 8 | 16 | 32 | 64) && ctx.rng.chance(60);
+    let bo = if big { "big" } else { "little" };
+    let sfx = if big { "be" } else { "le" };
+    let k = if signed { "i" } else { "u" };
+    let (pack, read) = if fixed {
+        match ctx.rng.below(3) {
+            0 => (format!("{} {}{}!", bo, k, w), format!("{} {}{}", bo, k, w)),
+            1 => (format!("{}{}{}!", k, w, sfx), format!("{}{}{}", k, w, sfx)),
+            // the explicit-order words ignore the current default order
+            _ => (format!("{} {}{}{}!", if big { "little" } else { "big" }, k, w, sfx), format!("{} {}{}{}", if big { "little" } else { "big" }, k, w, sfx)),
+        }
+    } else {
+        (format!("{} {} {}int!", bo, w, if signed { "" } else { "u" }), format!("{} {} {}int", bo, w, if signed { "" } else { "u" }))
+    };
+    ctx.tag(if fixed { "word:fixed-width" } else { "word:generic-width" });
+    let mask = if w >= 128 { u128::MAX } else { (1u128 << w) - 1 };
+    let u = (val as u128) & mask;
+    let expect = if w == 0 {
+        None
+    } else if signed {
+        if w > 128 { Some("err IntegerOverflow".to_string()) } else { Some(format!("ok i{}", sext(u, w))) }
+    } else if w > 127 {
+        // an unsigned 128-bit value does not fit the language's i128 integer: the word refuses, it does not wrap
+        Some("err IntegerOverflow".to_string())
+    } else {
+        Some(format!("ok i{}", u))
+    };
+    word_case(ctx, base, Cell::Int(val), &pack, &read, off, expect);
+}
+
+fn float_word_cases(ctx: &mut Ctx, base: &Xstate, is64: bool, big: bool) {
+    let off = ctx.rng.below(8);
+    let bo = if big { "big" } else { "little" };
+    let sfx = if big { "be" } else { "le" };
+    let n = if is64 { 64 } else { 32 };
+    let (pack, read) = match ctx.rng.below(3) {
+        0 => (format!("{} f{}!", bo, n), format!("{} f{}", bo, n)),
+        1 => (format!("f{}{}!", n, sfx), format!("f{}{}", n, sfx)),
+        _ => (format!("{} {} float!", bo, n), format!("{} {} float", bo, n)),
+    };
+    // the value pushed: any f64 for f64 words; for f32 words mostly f32-representable values, sometimes any f64 (rounding)
+    let (x, expect): (f64, Option<String>) = if is64 {
+        let x = f64::from_bits(float_bits64(ctx));
+        (x, Some(format!("ok {}", show_real(x))))
+    } else if ctx.rng.chance(75) {
+        let x = f32::from_bits(float_bits32(ctx)) as f64;
+        (x, Some(format!("ok {}", show_real(x))))
+    } else {
+        let x = super::gen::gen_real(&mut ctx.rng);
+        (x, Some(format!("ok {}", show_real((x as f32) as f64))))
+    };
+    ctx.tag(&format!("word:f{}:{}", n, if x.is_nan() { "nan-class" } else if x.is_infinite() { "inf" } else if x == 0.0 { "zero" } else if x.is_subnormal() || (!is64 && (x as f32).is_subnormal()) { "subnormal" } else { "finite" }));
+    word_case(ctx, base, Cell::Real(x), &pack, &read, off, expect);
+}
+
+pub fn run(ctx: &mut Ctx) {
+    let base = Xstate::boot().unwrap();
+    let nrand = if ctx.thorough { 40 } else { 3 };
+    // every width × both orders × value set; each value is decoded at all 8 offsets (oracle) and
+    // reported at some offsets (correspondence)
+    for w in 1..=128usize {
+        for big in [false, true] {
+            let vals = values(ctx, w, nrand, ctx.thorough);
+            for (n, v) in vals.iter().enumerate() {
+                let offs: Vec<usize> = if ctx.thorough || n < 3 { (0..8).collect() } else { vec![ctx.rng.below(8), ctx.rng.below(8)] };
+                api_case(ctx, w, big, *v, &offs);
+            }
+            for signed in [false, true] {
+                let vals = values(ctx, w, 1, false);
+                for v in vals {
+                    int_word_cases(ctx, &base, w, big, signed, v);
+                }
+            }
+        }
+    }
+    // outside the property's width range (faithfulness of the model only; the oracle is silent there)
+    for w in [0usize, 129, 130, 135, 136, 137, 200, 256, 300] {
+        for big in [false, true] {
+            for v in values(ctx, w, 2, false) {
+                ctx.tag("api:width-outside-1..128");
+                let o1 = ctx.rng.below(8);
+                api_case(ctx, w, big, v, &[o1]);
+            }
+            let v = super::gen::gen_int(&mut ctx.rng);
+            let sg = ctx.rng.bool();
+            int_word_cases(ctx, &base, w, big, sg, v);
+        }
+    }
+    // floats
+    let nf = (ctx.n / 20).max(200);
+    for _ in 0..nf {
+        let big = ctx.rng.bool();
+        let x32 = float_bits32(ctx) as u64;
+        float_api_case(ctx, false, big, x32);
+        let x64 = float_bits64(ctx);
+        float_api_case(ctx, true, big, x64);
+        float_word_cases(ctx, &base, false, big);
+        float_word_cases(ctx, &base, true, big);
+    }
+    // unsupported float widths, short inputs
+    for n in [0usize, 16, 31, 33, 63, 65, 128] {
+        let off = ctx.rng.below(8);
+        word_case(ctx, &base, Cell::Real(1.5), &format!("{} float!", n), "64 float", off, None);
+        word_case(ctx, &base, Cell::Real(1.5), "f64!", &format!("{} float", n), off, None);
+        word_case(ctx, &base, Cell::Int(5), "16 uint!", "32 uint", off, Some("err ReadError:16:32".into()));
+    }
+}
